@@ -68,7 +68,17 @@ func ChildMain(args []string) {
 	InstallObserveHook(run)
 	// flush what has been found so far every second: if this process dies or is
 	// stopped by the parent's watchdog, the violations already witnessed survive
+	var flushMu sync.Mutex
+	finalDone := false
 	flush := func(final bool) {
+		// serialised: a periodic flush that was under way must not land AFTER the final one (the parent would read
+		// an incomplete result from a child that exited normally)
+		flushMu.Lock()
+		defer flushMu.Unlock()
+		if finalDone {
+			return
+		}
+		finalDone = final
 		p := run.ToPartial()
 		p.Complete = final
 		b, _ := json.Marshal(p)
